@@ -24,6 +24,8 @@ source:
                      SyntaxError with file:line
   parser-bounds      dns/wirebase.py Parser.get_bytes / seek / restrict_to contain the bounds tests
                      the model mirrors (compared structurally)
+  rdtypes-api        dns/rdtypes/** and dns/edns.py use the parser only through its reading methods
+                     (the `api_disciplined` hypothesis of the reader theorems)
 
 Every guard compares `ast.dump` of the relevant nodes with the dump of the expected snippet; any
 other shape fails (a semantics-preserving rewrite has to be re-validated by a human).
@@ -467,6 +469,39 @@ def g_parser_bounds(repo):
     return True, "dns/wirebase.py Parser is statement-for-statement the modelled one"
 
 
+def g_rdtypes_api(repo):
+    """hypothesis `api_disciplined` of the reader theorems: a per-type parser touches the Parser only
+    through its reading methods - no seek / restore_furthest, no assignment to current/end/furthest"""
+    bad = []
+    nfiles = 0
+    roots = [os.path.join(repo, "dns", "rdtypes")]
+    files = [os.path.join(repo, "dns", "edns.py")]
+    for root in roots:
+        for r, _, fs in os.walk(root):
+            files += [os.path.join(r, f) for f in fs if f.endswith(".py")]
+    allowed_methods = {"get_bytes", "get_counted_bytes", "get_remaining", "get_uint8", "get_uint16", "get_uint32", "get_uint48",
+                       "get_struct", "get_name", "remaining", "restrict_to"}
+    for path in sorted(files):
+        rel = os.path.relpath(path, repo)
+        tree = _parse(repo, rel)
+        nfiles += 1
+        for n in ast.walk(tree):
+            if isinstance(n, ast.Attribute) and n.attr in ("seek", "restore_furthest"):
+                bad.append(f"{rel}:{n.lineno} .{n.attr}")
+            if isinstance(n, (ast.Assign, ast.AugAssign, ast.AnnAssign)):
+                targets = n.targets if isinstance(n, ast.Assign) else [n.target]
+                for t in targets:
+                    if isinstance(t, ast.Attribute) and t.attr in ("current", "end", "furthest") and isinstance(t.value, ast.Name) \
+                            and t.value.id in ("parser", "p"):
+                        bad.append(f"{rel}:{n.lineno} assignment to parser.{t.attr}")
+            if isinstance(n, ast.Call) and isinstance(n.func, ast.Attribute) and isinstance(n.func.value, ast.Name) \
+                    and n.func.value.id == "parser" and n.func.attr not in allowed_methods:
+                bad.append(f"{rel}:{n.lineno} parser.{n.func.attr}(...)")
+    if bad:
+        return False, "per-type parsers step outside the Parser API: " + "; ".join(bad[:6])
+    return True, f"{nfiles} modules use only the reading methods of the parser"
+
+
 GUARDS = [
     ("wrapper-shape", g_wrapper_shape),
     ("wire-wrapped", g_wire_wrapped),
@@ -475,6 +510,7 @@ GUARDS = [
     ("reader-handlers", g_reader_handlers),
     ("zonefile-handlers", g_zonefile_handlers),
     ("parser-bounds", g_parser_bounds),
+    ("rdtypes-api", g_rdtypes_api),
 ]
 
 
